@@ -23,9 +23,19 @@ structure AState where
   close : Option (Async.CloseSt × ExitStatus) := none
   wlogSeen : Nat := 0
 
+structure KState where
+  sem : Runner.Sem := { count := 0 }
+  max : Nat := 0
+  acqs : List (Option Runner.Acq) := []       -- pending get_token futures
+  owners : List (Nat × Nat) := []            -- listener id ↦ future index
+  tokens : List Bool := []                    -- live tokens
+  wg : Runner.WG := Runner.WG.init 0
+  wgWakes : Nat := 0
+
 structure DState where
   cur : Cur := .none
   a : AState := {}
+  k : KState := {}
 
 def natArg (s : String) : Option Nat := s.toNat?
 
@@ -564,8 +574,76 @@ def stepRun (args : List String) : Option String :=
     some s!"{evs} {fin} wlog={hexOrDash c.env.tr.wlog}"
   | _ => none
 
+def kSuffix (k : KState) : String :=
+  let live := (k.tokens.filter id).length
+  let items := (List.range k.acqs.length).filterMap fun a =>
+    match k.acqs.getD a none with
+    | some _ =>
+      let n := (k.sem.wakes.filter (fun lid => k.owners.any (fun o => o.1 == lid && o.2 == a))).length
+      some s!"{a}:{n}"
+    | none => none
+  let ws := if items.isEmpty then "-" else String.intercalate "," items
+  s!" live={live} free=? wakes={ws}"
+
+def recordOwner (k : KState) (a : Nat) (acq : Runner.Acq) : KState :=
+  match acq.listener with
+  | some lid => if k.owners.any (·.1 == lid) then k else { k with owners := k.owners ++ [(lid, a)] }
+  | none => k
+
+def stepRunner (st : DState) (args : List String) : Option (DState × String) :=
+  let k := st.k
+  let fin (k : KState) (o : String) : Option (DState × String) := some ({ st with k := k }, o ++ kSuffix k)
+  match args with
+  | ["k.new", mx, _clones] => do
+    let m ← natArg mx
+    fin { sem := { count := m }, max := m } "ok"
+  | ["k.get", _c] => fin { k with acqs := k.acqs ++ [some {}] } s!"a{k.acqs.length}"
+  | ["k.poll", a] => do
+    let i ← natArg a
+    match k.acqs.getD i none with
+    | none => some (st, "no-future")
+    | some acq =>
+      let (sem, acq', got) := Runner.acqPoll 4 k.sem acq
+      let k := recordOwner { k with sem := sem } i acq'
+      if got then
+        -- the completed future is dropped at once (its listener with it), then the token exists
+        let sem := Runner.acqDrop k.sem acq'
+        fin { k with sem := sem, acqs := k.acqs.set i none, tokens := k.tokens ++ [true] } s!"ready t{k.tokens.length}"
+      else fin { k with acqs := k.acqs.set i (some acq') } "pending"
+  | ["k.drop_pending", a] => do
+    let i ← natArg a
+    match k.acqs.getD i none with
+    | none => some (st, "no-future")
+    | some acq => fin { k with sem := Runner.acqDrop k.sem acq, acqs := k.acqs.set i none } "ok"
+  | ["k.drop_token", t] => do
+    let i ← natArg t
+    if k.tokens.getD i false then fin { k with sem := Runner.release k.sem, tokens := k.tokens.set i false } "ok"
+    else some (st, "no-token")
+  | ["g.new", n] => do
+    let m ← natArg n
+    some ({ st with k := { k with wg := Runner.WG.init m, wgWakes := 0 } }, "ok")
+  | ["g.poll"] =>
+    let run (g : Runner.WG) (s : Runner.WStep) : Runner.WG := (Runner.wgStep g s).getD g
+    let g0 := k.wg
+    let g1 := run g0 .pollUpgrade
+    let g := if g1.pc == .upgraded then run (run (run g1 .pollRegister) .pollDropTemp) .pollWake else g1
+    let woke := g.wokenSinceRegister && !(g0.wokenSinceRegister && g0.pc == g.pc && false)
+    let w := if g1.pc == .upgraded && woke then k.wgWakes + 1 else k.wgWakes
+    let res := if g.lastPoll == some true then "ready" else "pending"
+    some ({ st with k := { k with wg := g, wgWakes := w } }, s!"{res} wakes={w}")
+  | ["g.drop", t] => do
+    let i ← natArg t
+    match Runner.wgStep k.wg (.tokenDec i) with
+    | none => some (st, "no-token")
+    | some g =>
+      let before := g.wokenSinceRegister
+      let g := (Runner.wgStep g (.tokenWake i)).getD g
+      let w := if g.wokenSinceRegister && !before then k.wgWakes + 1 else k.wgWakes
+      some ({ st with k := { k with wg := g, wgWakes := w } }, s!"ok wakes={w}")
+  | _ => none
+
 def step (st : DState) (line : String) : DState × String :=
-  if line.startsWith "# case" then ({ cur := .none, a := {} }, line) else
+  if line.startsWith "# case" then ({ cur := .none, a := {}, k := {} }, line) else
   if line.startsWith "#" then (st, line) else
   let args := (line.splitOn " ").filter (· ≠ "")
   match stepParser st args with
@@ -576,6 +654,9 @@ def step (st : DState) (line : String) : DState × String :=
   | none =>
   match stepRun args with
   | some o => (st, o)
+  | none =>
+  match stepRunner st args with
+  | some r => r
   | none =>
   match stepVarInt args with
   | some o => (st, o)
